@@ -186,6 +186,14 @@ func (ge *GuardEngine) Calls(fn *ssa.Function, env *Env, chain, ctx []string, de
 			}
 			callee := ge.calleeOf(cc)
 			if callee == nil {
+				// a callback parameter bound to a closure or function by the caller
+				if fs := ge.calleesOfEnv(cc, env); len(fs) == 1 {
+					if _, isParam := cc.Value.(*ssa.Parameter); isParam {
+						callee = fs[0]
+					}
+				}
+			}
+			if callee == nil {
 				// a call through a package-level list of functions: every listed function is called
 				if fs := ge.calleesOf(cc); len(fs) > 1 {
 					for _, f := range fs {
